@@ -1,6 +1,8 @@
 package checks
 
 import (
+	"bytes"
+	"context"
 	"fmt"
 	"git.defalsify.org/vise.git/state"
 	"io"
@@ -46,6 +48,21 @@ func c19Serve(a *app.App, s *c19session, drv string, shared *c19shared, r *vk.RN
 	var d app.Driver
 	var b *app.Backend
 	mkYield := func(res *app.RecRes) {
+		// one application logger with the session id as context key is shared by the functions of all sessions: every
+		// line must carry the id of the session that wrote it
+		res.OnCall = func(ctx context.Context, sym string) {
+			sid, _ := ctx.Value("SessionId").(string)
+			var b bytes.Buffer
+			c19AppLog.WriteCtxf(ctx, &b, logging.LVL_DEBUG, "external function called", "sym", sym, "session", sid)
+			atomic.AddInt64(&c19LogLines, 1)
+			if sid != "" && !strings.Contains(b.String(), "x-SessionId="+sid) {
+				c19LogMu.Lock()
+				if c19LogWrong == "" {
+					c19LogWrong = fmt.Sprintf("session %q logged %q", sid, strings.TrimSpace(b.String()))
+				}
+				c19LogMu.Unlock()
+			}
+		}
 		if !concurrent {
 			return
 		}
@@ -106,6 +123,13 @@ func c19Serve(a *app.App, s *c19session, drv string, shared *c19shared, r *vk.RN
 	d.Close()
 	return tr
 }
+
+var (
+	c19AppLog   = logging.NewVanilla().WithDomain("app").WithLevel(logging.LVL_DEBUG).WithContextKey("SessionId")
+	c19LogLines int64
+	c19LogMu    sync.Mutex
+	c19LogWrong string
+)
 
 type c19shared struct {
 	dir string
@@ -314,6 +338,13 @@ func runC19(c *vk.Ctx) {
 			}
 		}
 		os.RemoveAll(shared2.dir)
+		c19LogMu.Lock()
+		wrong := c19LogWrong
+		c19LogWrong = ""
+		c19LogMu.Unlock()
+		if wrong != "" {
+			c.Violate("application-log-line-tagged-with-another-session", "one logging.Vanilla with context key SessionId shared by all sessions: "+wrong, key, map[string]interface{}{"driver": drv, "sessions": k})
+		}
 		if err := a.CheckCanaries(); err != nil {
 			c.Violate("shared-data-modified", err.Error(), key, map[string]interface{}{"driver": drv, "app": a.Describe()})
 		}
@@ -337,6 +368,7 @@ func runC19(c *vk.Ctx) {
 		}
 	}
 	c.Count("callbacks_with_yield", atomic.LoadInt64(&c19Callbacks))
+	c.Count("application_log_lines_checked", atomic.LoadInt64(&c19LogLines))
 	// race reports of this worker
 	if glob := os.Getenv("VERIF_RACE_GLOB"); glob != "" {
 		reps := parseRaceLogs(glob)
